@@ -292,7 +292,7 @@ func c09JsGaps(src []byte, toks []c09JsTok) ([]c09JsGap, []int, bool) {
 				pos += j + 4
 				continue
 			}
-			if c == '/' && pos+1 < len(src) && src[pos+1] == '/' && t.K != 'r' {
+			if c == '/' && pos+1 < len(src) && src[pos+1] == '/' {
 				j := bytes.IndexAny(src[pos:], "\n\r")
 				if j < 0 {
 					pos = len(src)
@@ -1124,22 +1124,24 @@ var c09JsSeeds = []string{
 	"throw /re/; ", "throw a", "x = a ? /re/ : /re2/g; y = [/re/, /re/]; z = {a: /re/}; w = (/re/); v = !/re/; u = a || /re/; t = a, /re/",
 	"x = a.b /c/g; y = a[0] /c/g; z = a() /c/g; w = a`b` /c/g; v = \"s\" /c/g; u = 1 /c/g; t = this /c/g; s = a++ /c/g",
 	"x = a ? b : c; y = a ?. b; z = a ?.5 : c; w = a ?.[5]; v = a?.b?.c?.(d)?.[e]",
+	"try{}catch{a}/re/.test(b); try{}catch(e){}/re/.test(b); import.meta in x; function f(){new.target instanceof f}",
+	"//! bang\n/re/.test(a); /*! b *//=/.test(a)",
 	"x = new (a?.b)[c](); y = new ((a?.b)).c; z = (a?.b)[c]; w = (a?.b)(); v = (a?.b)`t`; (a?.b).c = 1; (a?.b.c).d++; ++(a?.b)[c]",
 	"x = 5..toString(); y = 5 .toString(); z = 5.5.toString(); w = (5).toString(); v = 5[\"toString\"](); u = 5e0.toString(); t = 0x5.toString()",
 }
 
 // ---------- signatures of the known findings of this slice (meta/C09js.known.json) ----------
 
-var c09JsCommentBodyRe = regexp.MustCompile(`(?:\)|\belse|\bdo|:)(?:/\*!(?s:.*?)\*/|//![^\n]*\n)+(?:else\b|\}|while\b|$)`)
+var c09JsCommentBodyRe = regexp.MustCompile(`(?:\)|\belse|\bdo|:)(?:/\*!(?s:.*?)\*/|//![^\n]*\n)`)
 
 // c09JsSyntaxSignature names the known finding that explains a rejected output ("" = none)
 func c09JsSyntaxSignature(out []byte, v8err, seconderr string) string {
 	switch {
 	case seconderr != "" && strings.Contains(seconderr, "unexpected ** in expression"):
 		return "update-exp"
-	case v8err != "" && c09JsCommentBodyRe.Match(out):
+	case (v8err != "" || seconderr != "") && c09JsCommentBodyRe.Match(out):
 		return "comment-body"
-	case strings.Contains(v8err, "Invalid left-hand side in assignment") && bytes.Contains(out, []byte("!class")):
+	case (strings.Contains(v8err, "Invalid left-hand side in assignment") || strings.Contains(v8err, "Unary operator used immediately before exponentiation")) && bytes.Contains(out, []byte("!class")):
 		return "bang-class"
 	case bytes.Contains(out, []byte("?.")) && (strings.Contains(v8err, "Invalid left-hand side") || strings.Contains(v8err, "Invalid tagged template on optional chain") || strings.Contains(v8err, "Invalid optional chain from new expression")):
 		return "opt-chain"
